@@ -675,10 +675,9 @@ func TestVerifC28(t *testing.T) {
 			{one("b1", 0)},
 			{{batch: []string{"c1", "c2"}, timeout: time.Second, cancel: true}},
 		}})
-		scs = append(scs, c28Scenario{name: "3callers/2conns/two-rounds", conns: 2, bound: 1, ops: [][]c28Op{
+		scs = append(scs, c28Scenario{name: "2callers/2conns/two-rounds", conns: 2, bound: 2, ops: [][]c28Op{
 			{one("a1", time.Second), one("a2", time.Second)},
-			{one("b1", 0), one("b2", time.Second)},
-			{{batch: []string{"c1", "c2", "c3"}, timeout: time.Second, cancel: true}, one("c4", 0)},
+			{one("b1", 0), {batch: []string{"b2", "b3"}, timeout: time.Second, cancel: true}},
 		}})
 	}
 	var all []vsched.Scenario
